@@ -12,18 +12,18 @@ import (
 func VH_selftest() {
 	srcs := []string{
 		"",
-		"ধরি x = ১২.৫; দেখাও x;",
-		"ফাংশন add(a, b) { ফেরত a + b; }",
-		"যদি (x >= 10) { দেখাও \"big\"; } নাহয় { দেখাও \"small\"; }",
-		"যতক্ষণ (i < 3) { i = i + 1; থামো; চালিয়ে_যাও; }",
-		"a এবং b বা c && d || e",
+		"\u09a7\u09b0\u09bf x = \u09e7\u09e8.\u09eb; \u09a6\u09c7\u0996\u09be\u0993 x;",
+		"\u09ab\u09be\u0982\u09b6\u09a8 add(a, b) { \u09ab\u09c7\u09b0\u09a4 a + b; }",
+		"\u09af\u09a6\u09bf (x >= 10) { \u09a6\u09c7\u0996\u09be\u0993 \"big\"; } \u09a8\u09be\u09b9\u09df { \u09a6\u09c7\u0996\u09be\u0993 \"small\"; }",
+		"\u09af\u09a4\u0995\u09cd\u09b7\u09a3 (i < 3) { i = i + 1; \u09a5\u09be\u09ae\u09cb; \u099a\u09be\u09b2\u09bf\u09df\u09c7_\u09af\u09be\u0993; }",
+		"a \u098f\u09ac\u0982 b \u09ac\u09be c && d || e",
 		"( ) { } [ ] , . - + ; * / % ** ^ ~ & | ! != = == < <= << > >= >> :",
-		"12 3.5 4. .5 1.2.3 ০১",
+		"12 3.5 4. .5 1.2.3 \u09e6\u09e7",
 		"// comment\nx /* multi\nline */ y\n\"str\ning\" z",
 		"\"unterminated",
 		"/* unterminated",
-		"@ # $ x_1 কাজ",
-		"nil সত্য মিথ্যা ফর",
+		"@ # $ x_1 \u0995\u09be\u099c",
+		"nil \u09b8\u09a4\u09cd\u09af \u09ae\u09bf\u09a5\u09cd\u09af\u09be \u09ab\u09b0",
 		"1e400 99999999999999999999999999999999999999999999999999999999999999999999999999999999999999999999999999999999999999999999999999999999999999999999999999999999999999999999999999999999999999999999999999999999999999999999999999999999999999999999999999999999999999999999999999999999999999999999999999999999999999999999999",
 	}
 	for _, src := range srcs {
